@@ -1,7 +1,7 @@
 (* Properties_C09.v — property C09: copies and persisted data reproduce states and planner graphs exactly.
    Statements only, over CodecModel.v (archive framing abstracted to tokens; boost's byte format not modelled). *)
 From Coq Require Import List ZArith Bool Arith.
-From OmplV Require Import CodecModel CodecProofs CodecPdProofs.
+From OmplV Require Import CodecModel CodecProofs CodecPdProofs CopyModel CopyProofs.
 Import ListNotations.
 
 (* serialize then deserialize yields the original state for every nesting of compound spaces, wherever the
@@ -63,6 +63,25 @@ Theorem C09_planner_data_rejects_other_signature :
   forall sp sp' g, signature sp' <> signature sp -> load_pd sp' (store_pd sp g) = LErr.
 Proof. exact load_pd_rejects_other_signature. Qed.
 
+(* copyStateData between related spaces (CopyModel.v; a name identifies a space, names are unique within a space):
+   the destination keeps its shape; every leaf space the two spaces have in common receives the source's content and
+   every other leaf of the destination keeps its own; ALL_DATA_COPIED is reported only when every leaf of the source
+   exists in the destination *)
+Theorem C09_partial_copy_transfers_exactly_the_common_components :
+  forall destS dest srcS src,
+    NoDup (names destS) -> NoDup (names srcS) -> compat destS srcS -> shape destS dest -> shape srcS src ->
+    let out := copy_state_data destS dest srcS src in
+    shape destS (snd out) /\
+    (forall l, leaf_val destS (snd out) l =
+               match leaf_val destS dest l with
+               | None => None
+               | Some old => match leaf_val srcS src l with Some v => Some v | None => Some old end
+               end) /\
+    (fst out = CAll -> incl (leaves srcS) (leaves destS)).
+Proof.
+  intros destS dest srcS src H1 H2 H3 H4 H5. exact (copy_state_data_spec destS dest srcS src (conj H1 (conj H2 (conj H3 (conj H4 H5))))).
+Qed.
+
 Print Assumptions C09_deserialize_serialize.
 Print Assumptions C09_serialization_length.
 Print Assumptions C09_reals_roundtrip.
@@ -77,6 +96,7 @@ Print Assumptions C09_load_store_planner_data_disjoint_marks.
 Print Assumptions C09_planner_data_rejects_every_strict_prefix.
 Print Assumptions C09_planner_data_rejects_wrong_marker.
 Print Assumptions C09_planner_data_rejects_other_signature.
+Print Assumptions C09_partial_copy_transfers_exactly_the_common_components.
 
 Local Open Scope Z_scope.
 (* non-vacuity: SE(2) x discrete x (R^2 x SO(3)) *)
@@ -110,3 +130,11 @@ Proof.
   cbv zeta. split; [|split; vm_compute; reflexivity]. unfold pd_wf. cbn [verts starts goals length].
   split; [repeat constructor; eexists; vm_compute; reflexivity|]. split; [repeat constructor|]. split; [repeat constructor|]. split; repeat constructor.
 Qed.
+
+(* non-vacuity for the partial copy: dest = D[X[A,B],C], source = S[Y[A],B,E]: A and B arrive, C stays, E has no place *)
+Example C09_partial_copy_nonvacuous :
+  let dS := NComp 10 [NComp 11 [NLeaf 1; NLeaf 2]; NLeaf 3] in
+  let sS := NComp 20 [NComp 21 [NLeaf 1]; NLeaf 2; NLeaf 5] in
+  copy_state_data dS (VCompS [VCompS [VLeafS 100; VLeafS 200]; VLeafS 300]) sS (VCompS [VCompS [VLeafS 1]; VLeafS 2; VLeafS 5])
+  = (CSome, VCompS [VCompS [VLeafS 1; VLeafS 2]; VLeafS 300]).
+Proof. vm_compute. reflexivity. Qed.
